@@ -53,7 +53,7 @@ def C01_WritePacket : List String := ["acquireWriteLock", "defer writeLock.Unloc
 end Skel
 
 namespace Cond
-def C01_ReadPacket : List String := ["err := ps.acquireReadLock(); err != nil", "err != nil", "packetType.IsHeartbeat()", "packetType.IsEncrypted()", "err != nil", "err != nil", "packetType.IsCompressed()", "err != nil", "packetType.IsJsonCommand() || packetType.IsCommandResp()", "err != nil"]
+def C01_ReadPacket : List String := ["err := ps.acquireReadLock(); err != nil", "err != nil", "packetType.IsHeartbeat()", "err != nil", "err != nil", "packetType.IsEncrypted()", "packetType.IsCompressed()", "err != nil", "packetType.IsJsonCommand() || packetType.IsCommandResp()", "err != nil"]
 def C01_decompressData : List String := ["estimatedSize > constants.MaxPacketBodySize", "err != nil", "n > int64(constants.MaxPacketBodySize)"]
 def C01_readPacketBody : List String := ["bodySize > constants.MaxPacketBodySize", "err != nil && totalRead < int(bodySize)"]
 def C01_readPacketBodySize : List String := ["_, err := io.ReadFull(ps.reader, sizeBuffer[:constants.PacketBodySizeBytes]); err != nil"]
